@@ -586,9 +586,22 @@ func (in *Interp) binop(op token.Token, x, y AV, t types.Type) AV {
 			if cx.Kind() == cy.Kind() || (cx.Kind() != constant.Bool && cy.Kind() != constant.Bool && cx.Kind() != constant.String && cy.Kind() != constant.String) {
 				return mkBool(constant.Compare(cx, op, cy))
 			}
-		case token.ADD, token.SUB, token.MUL, token.AND, token.OR, token.XOR:
+		case token.ADD, token.SUB, token.MUL, token.AND, token.OR, token.XOR, token.AND_NOT:
 			if cx.Kind() == cy.Kind() && cx.Kind() != constant.Bool {
 				return Const{constant.BinaryOp(cx, op, cy)}
+			}
+		case token.SHL, token.SHR:
+			if cx.Kind() == constant.Int && cy.Kind() == constant.Int {
+				if n, ok := constant.Uint64Val(cy); ok && n < 64 {
+					return Const{constant.Shift(cx, op, uint(n))}
+				}
+			}
+		case token.QUO, token.REM:
+			if cx.Kind() == constant.Int && cy.Kind() == constant.Int && constant.Sign(cy) != 0 {
+				if op == token.QUO {
+					return Const{constant.BinaryOp(cx, token.QUO_ASSIGN, cy)}
+				}
+				return Const{constant.BinaryOp(cx, token.REM, cy)}
 			}
 		}
 	}
